@@ -29,6 +29,7 @@ GRV_CMD(gdl) {
         const std::vector<int> dirs = v->has("dirs") ? std::vector<int>() : std::vector<int>{rtl};
         std::vector<int> dl = dirs; if (v->has("dirs")) for (auto &d : (*v)["dirs"].a) dl.push_back(int(d->num()));
         for (int dir : dl) {
+            GRV_WATCHDOG;
             gr_segment *seg = gr_make_seg(0, face, 0, 0, gr_utf32, cps.data(), cps.size(), dir);
             if (!seg) { ++nullsegs; if (!nocompare) { vj::W w; w.str("id", id); report_fail("C06", "gr_make_seg returned NULL for a progress-only rule program", w.done()); } continue; }
             SegP p = project(seg, face, 0, true);
